@@ -35,7 +35,8 @@ func (prop) Budget(tier string) int {
 
 func (prop) Describe() kernel.Description {
 	return kernel.Description{
-		Rule: "one run = one scripted underlying stream (content 0..10000 bytes, chunk plan, zero-length reads, data+EOF, " +
+		Rule: "Dimensions added with the seed waves: io.Copy as a consumption step; terminal errors reported once, of several values; a one-off read failure in the middle of the stream; bodies that can seek, handed over past their start; request contexts live / cancellable / already done; a warm-up request and a sibling request alive at the same time. " +
+			"one run = one scripted underlying stream (content 0..10000 bytes, chunk plan, zero-length reads, data+EOF, " +
 			"injected error at a chosen offset (sticky, or reported once and io.EOF afterwards) or clean EOF, or nil body) × Content-Length declared positive/zero/absent × a tape-drawn " +
 			"history (≤12) of HasBody / Read(buffer 0,1,small,huge) / io.Copy / Close, checked step by step against a reference model " +
 			"(remaining bytes + terminal condition + closed flag). thorough adds the sweep: ~20 stream shapes × every error offset × " +
